@@ -173,6 +173,48 @@ def run(ctx, scratch):
         _state_probes(ctx, main, desc, nmax, quick)
         _gnn_validation(ctx, main, nmax, quick)
         _static_facts(ctx)
+        # ---- (e) a large hub graph under 1 and 8 threads: unsynchronised updates of a shared cell by the iterations of a
+        #      prange loop only lose updates when many threads hit the same cell at the same moment (seed C16_5: every node
+        #      points to 4 hubs; invisible on the small graphs above)
+        big_n = 20000 if quick else 100000
+        par_names = [n_ for n_ in names if desc[n_]['parallel']]
+        if par_names:
+            hub = Impl(scratch, threads=8)
+            try:
+                full_n = big_n
+                for name in par_names:
+                    kinds = desc[name]['kinds']
+                    # the merge intersection of the triangle kernels is quadratic in the hub degree: a smaller hub graph
+                    big_n = full_n if base_name(name) == 'PageRank' else max(2000, full_n // 8)
+                    if 'sq' in kinds:
+                        coo = [[i, h, 1] for i in range(big_n) for h in range(4) if i != h]
+                    else:
+                        coo = [[i, h, 1] for i in range(4, big_n) for h in range(4)] + [[h, i, 1] for i in range(4, big_n) for h in range(4)] + \
+                              [[a_, b_, 1] for a_ in range(4) for b_ in range(4) if a_ != b_]
+                    spec = dict(shape=[big_n, big_n], coo=coo, dtype='int', fmt='csr')
+                    req = dict(name=name, m=spec, opts={})
+                    a = main.call('registry', 'run', req, timeout=300)
+                    ctx.traces += 1
+                    if 'ok' not in a:
+                        continue
+                    for _ in range(2 if quick else 5):
+                        e = hub.call('registry', 'run', req, timeout=300)
+                        ctx.traces += 1
+                        ctx.count(name + ':hub_threads', (name, big_n, _), True)
+                        if 'ok' not in e:
+                            continue
+                        bad = compare(a['ok'], e['ok'], rtol=1e-9, atol=1e-12)
+                        if bad:
+                            def head(v):
+                                return v[:2] + [v[2][:8]] if isinstance(v, list) and len(v) > 2 and isinstance(v[2], list) else v
+                            ctx.violation(name, 'result with 8 OpenMP threads differs from 1 thread on a hub graph (%d nodes, every node '
+                                          'linked to nodes 0-3): %s' % (big_n, bad[0][0]),
+                                          case=dict(name=name, family='hub_graph', n=big_n, hubs=4, threads=8), entry=name, kind='threads',
+                                          mismatches=bad[:2], first={k: head(a['ok'].get(k)) for k, _ in bad[:1]},
+                                          second={k: head(e['ok'].get(k)) for k, _ in bad[:1]})
+                            break
+            finally:
+                hub.close()
     finally:
         for w in workers.values():
             w.close()
